@@ -58,6 +58,7 @@ for p in seeds:
     m['checks_reporting_new_violation_now'] = sorted(k for k, v in new.items() if v != ['ANALYSIS-BROKEN (exit 2)'])
     m['checks_analysis_broken_now'] = sorted(k for k, v in new.items() if v == ['ANALYSIS-BROKEN (exit 2)'])
     m['new_violation_lines_now'] = [l for v in new.values() for l in v][:8]
+    m['own_violation_lines_now'] = [l[:300] for l in new.get(m.get('breaks_property') or sid.split('-')[0], [])][:3]
     m['rerun_at_verif_commit'] = subprocess.check_output(['git', '-C', HERE, 'rev-parse', '--short', 'HEAD'], text=True).strip()
     m['base_commit'] = base
     if OWN_ONLY:
